@@ -599,8 +599,13 @@ fn congress_steady_scenario(rng: &mut Rng, rep: &Report) -> bool {
     let target = *rng.pick(&[30u32, 100, 1000]);
     let shared = SharedRng::new(rng.next_u64());
     let rec = RecFormat::default();
-    let mut c = CongressSampleBuilder::default().interval(Duration::from_secs(86_400)).target_entries_per_interval(target).build_with_rng(rec.clone(), shared.clone());
+    // group validation (a debug-build default) is on in half of the scenarios only
+    let validate = rng.bool();
+    let mut c = CongressSampleBuilder::default().interval(Duration::from_secs(86_400)).target_entries_per_interval(target).validate_groups(validate).build_with_rng(rec.clone(), shared.clone());
     struct G {
+        /// 1: the group is the single pair (op, name); 2: two pairs, always in the same order;
+        /// 3: two pairs whose order alternates from entry to entry (the order must not matter)
+        shape: u8,
         name: String,
         volume: u64,
         period: u64,
@@ -618,41 +623,52 @@ fn congress_steady_scenario(rng: &mut Rng, rep: &Report) -> bool {
     for i in 0..n_old {
         let v = 1 + rng.below((budget_left / (n_old - i + 1)).max(1));
         budget_left = budget_left.saturating_sub(v);
-        groups.push(G { name: format!("old{i}"), volume: v, period: 1 + rng.below(2), phase: rng.below(2), from: 0, constant: true, active_before: false });
+        groups.push(G { shape: 1 + rng.below(3) as u8, name: format!("old{i}"), volume: v, period: 1 + rng.below(2), phase: rng.below(2), from: 0, constant: true, active_before: false });
     }
     // constant groups that appear with the busy phase, and bursters that make it busy
     for i in 0..rng.below(4) {
-        groups.push(G { name: format!("new{i}"), volume: 1 + rng.below(3 * target as u64), period: 1 + rng.below(2), phase: rng.below(2), from: quiet, constant: true, active_before: false });
+        groups.push(G { shape: 1 + rng.below(3) as u8, name: format!("new{i}"), volume: 1 + rng.below(3 * target as u64), period: 1 + rng.below(2), phase: rng.below(2), from: quiet, constant: true, active_before: false });
     }
     for i in 0..1 + rng.below(2) {
-        groups.push(G { name: format!("burst{i}"), volume: (2 + rng.below(20)) * target as u64, period: 1 + rng.below(2), phase: rng.below(2), from: quiet, constant: false, active_before: false });
+        groups.push(G { shape: 1 + rng.below(3) as u8, name: format!("burst{i}"), volume: (2 + rng.below(20)) * target as u64, period: 1 + rng.below(2), phase: rng.below(2), from: quiet, constant: false, active_before: false });
     }
     let mut next_id = 0u64;
     let mut trace: Vec<String> = vec![];
     for iv in 0..quiet + busy {
-        // (group index, rate in force when its first entry of this interval arrived)
-        let mut seen: Vec<(usize, f32)> = vec![];
+        // (group index, lowest and highest rate in force for the group when its first entry of this
+        // interval arrived: one and the same unless the sampler tracks the group under several keys)
+        let mut seen: Vec<(usize, f32, f32)> = vec![];
         let mut order: Vec<usize> = (0..groups.len()).filter(|g| iv >= groups[*g].from && (iv + groups[*g].phase) % groups[*g].period == 0).collect();
         rng.shuffle(&mut order);
         for g in order {
             let rates = c.verif_group_rates();
-            let rate = rates.iter().find(|r| r.0.len() == 1 && r.0[0].1 == groups[g].name.as_str()).map(|r| r.1).unwrap_or(1.0);
-            seen.push((g, rate));
-            for _ in 0..groups[g].volume {
-                let _ = c.format(&group_entry(next_id, &groups[g].name), &mut io::sink());
+            let mine: Vec<f32> = rates.iter().filter(|r| r.0.iter().any(|p| p.1 == groups[g].name.as_str())).map(|r| r.1).collect();
+            let lo = mine.iter().copied().fold(1.0f32, f32::min);
+            let hi = if mine.is_empty() { 1.0 } else { mine.iter().copied().fold(0.0f32, f32::max) };
+            seen.push((g, lo, hi));
+            for k in 0..groups[g].volume {
+                let mut e = group_entry(next_id, &groups[g].name);
+                if groups[g].shape >= 2 {
+                    e.sample_group.push(("tier".into(), "gold".into()));
+                    if groups[g].shape == 3 && k % 2 == 1 {
+                        e.sample_group.reverse();
+                        rep.count("congress_steady_entries_with_reversed_pair_order", 1);
+                    }
+                }
+                let _ = c.format(&e, &mut io::sink());
                 next_id += 1;
             }
             rep.eval();
         }
-        trace.push(format!("iv{iv}: {}", seen.iter().map(|(g, r)| format!("{}x{}@{:e}", groups[*g].name, groups[*g].volume, r)).collect::<Vec<_>>().join(" ")));
-        for (a, ra) in &seen {
-            for (b, rb) in &seen {
+        trace.push(format!("iv{iv}: {}", seen.iter().map(|(g, lo, hi)| format!("{}(shape {})x{}@{:e}..{:e}", groups[*g].name, groups[*g].shape, groups[*g].volume, lo, hi)).collect::<Vec<_>>().join(" ")));
+        for (a, ra, _) in &seen {
+            for (b, _, rb) in &seen {
                 let (ga, gb) = (&groups[*a], &groups[*b]);
                 if ga.constant && gb.constant && ga.active_before && gb.active_before && ga.volume < gb.volume && ga.period >= gb.period && (*ra as f64) < *rb as f64 * (1.0 - 1e-4) {
                     rep.violation(
                         "congress-rarer-group-sampled-lower",
                         json!({"what": "steady pattern with known volumes: a group that is rarer beyond doubt (smaller constant volume, not active more often) is sampled at a lower rate than a more frequent one; both had been active before",
-                               "target": target, "interval": iv, "quiet_intervals_before": quiet,
+                               "target": target, "interval": iv, "quiet_intervals_before": quiet, "validate_groups": validate,
                                "rarer": format!("{}: {} per active interval, every {} interval(s), rate in force {:e}", ga.name, ga.volume, ga.period, ra),
                                "more_frequent": format!("{}: {} per active interval, every {} interval(s), rate in force {:e}", gb.name, gb.volume, gb.period, rb),
                                "history_tail": trace.iter().rev().take(6).collect::<Vec<_>>()}),
@@ -661,7 +677,7 @@ fn congress_steady_scenario(rng: &mut Rng, rep: &Report) -> bool {
                 }
             }
         }
-        for (g, _) in &seen {
+        for (g, _, _) in &seen {
             groups[*g].active_before = true;
         }
         rec.clear();
